@@ -65,6 +65,7 @@ class LockRun:
         self.flags = set()
         self.ended: set[int] = set()
         self.spinning: set[int] = set()    # tasks inside acquire() entered in an already cancelled scope
+        self.spin_native: set[int] = set() # of those: a native Task.cancel() was requested
         self.script: list[int] = []
 
     def __enter__(self):
@@ -94,6 +95,9 @@ class LockRun:
             if t in self.spinning:
                 en.append((8, t))           # the cancellation is delivered: the call raises
                 en.append((9, t))           # the check returns after its yield (a shield was raised meanwhile, F46/F53)
+                en.append((4, t))           # native Task.cancel() while it sits in the check (`_must_cancel`)
+                if self.world.runnable(p):
+                    en.append((3, t))       # its own step: raises after a native cancel, spins again otherwise
                 continue
             if p.at_decision:
                 en += [(0, t), (1, t), (2, t)]
@@ -231,6 +235,29 @@ class LockRun:
         after = self.observe()
         self.ops += [c, t]
         self.outs += [k] + after
+        if t in self.spinning and c in (3, 4):
+            # done TO a task that sits in the entry check of acquire(): nothing about the lock may move
+            native = t in self.spin_native
+            if c == 4:
+                self.spin_native.add(t)
+                self.flags.add("native_cancel_in_entry_check")
+            else:
+                want = 2 if native else 1
+                if k != want:
+                    self.mon.append(f"step of task {t} in its entry check ({'native cancel pending' if native else 'cancellation still visible'}): res {k}, expected {want}")
+                if k != 1:
+                    self.spinning.discard(t)
+                    self.spin_native.discard(t)
+                self.flags.add("entry_check_raised_native" if native else "entry_check_spins")
+            if after != before:
+                self.mon.append(f"op {c} on task {t} (acquire() suspended in its cancellation check) changed the lock state {before} -> {after}")
+            return
+        if c == 9 and t in self.spin_native:
+            self.spin_native.discard(t)
+            if k != 2:
+                self.mon.append(f"task {t}: native cancel pending at the entry check's yield, but acquire() went on (res {k})")
+        if c == 8:
+            self.spin_native.discard(t)
         self.monitor(c, t, k, before, after)
 
     # -- property monitors on the observable history (independent of the model) --
